@@ -180,10 +180,36 @@ fn case_zoned_add(loc: &mut Local, x: &Ix, a: RDt, off: i64, d_ns: i128, sub: bo
                 if g.offset().local_minus_utc() as i64 != off {
                     loc.violation(&format!("C03/{}/offset-changed", entry), json!({"input": input()}));
                 }
-                match guard(|| if sub { z - d } else { z + d }) {
-                    Ok(o) => {
-                        if o != g {
-                            loc.violation(&format!("C03/{}/operator-form-differs", entry), json!({"input": input()}));
+                // the whole operator family: +, -, +=, -= with TimeDelta and (for non-negative durations)
+                // with std::time::Duration, on the zone-aware value
+                match guard(|| {
+                    let o1 = if sub { z - d } else { z + d };
+                    let mut o2 = z;
+                    if sub {
+                        o2 -= d
+                    } else {
+                        o2 += d
+                    }
+                    let std_forms = if d_ns >= 0 {
+                        d.to_std().ok().map(|sd| {
+                            let s1 = if sub { z - sd } else { z + sd };
+                            let mut s2 = z;
+                            if sub {
+                                s2 -= sd
+                            } else {
+                                s2 += sd
+                            }
+                            (s1, s2)
+                        })
+                    } else {
+                        None
+                    };
+                    (o1, o2, std_forms)
+                }) {
+                    Ok((o1, o2, sf)) => {
+                        let same = |v: &DateTime<FixedOffset>| *v == g && v.naive_utc() == g.naive_utc() && v.offset() == g.offset();
+                        if !same(&o1) || !same(&o2) || sf.map(|(a, b)| !same(&a) || !same(&b)).unwrap_or(false) {
+                            loc.violation(&format!("C03/{}/operator-form-differs", entry), json!({"input": input(), "checked": format!("{:?}", g.naive_utc()), "op": format!("{:?}", o1.naive_utc()), "op_assign": format!("{:?}", o2.naive_utc()), "std_forms": format!("{:?}", sf.map(|(a, b)| (a.naive_utc(), b.naive_utc())))}));
                         }
                     }
                     Err(p) => loc.violation(&format!("C03/{}/operator-panics-though-checked-some@{}", entry, p.site()), json!({"input": input(), "panic": p.to_json()})),
@@ -194,6 +220,45 @@ fn case_zoned_add(loc: &mut Local, x: &Ix, a: RDt, off: i64, d_ns: i128, sub: bo
     }
     if exp.is_none() || off.abs() >= 86_000 {
         loc.nontrivial(h2(3, h2(a.ns() as u64, h2(off as u64, d_ns as u64))));
+    }
+}
+
+/// `NaiveDateTime ± FixedOffset` and `DateTime<Tz> ± FixedOffset` (shift by the offset's seconds;
+/// the operator forms are documented to panic when the result is out of range)
+fn case_offset_ops(loc: &mut Local, x: &Ix, a: RDt, off: i64) {
+    let (Some(av), Some(fo)) = (a.to_chrono(), FixedOffset::east_opt(off as i32)) else { return };
+    loc.eval();
+    loc.bucket(x.ops);
+    for sub in [false, true] {
+        let target = if sub { a.ns() - off as i128 * NS } else { a.ns() + off as i128 * NS };
+        let exp = if target >= ri::min_ns() && target <= ri::max_ns() { Some(RDt::from_ns(target)) } else { None };
+        let name = if sub { "NaiveDateTime::checked_sub_offset" } else { "NaiveDateTime::checked_add_offset" };
+        match guard(|| if sub { av.checked_sub_offset(fo) } else { av.checked_add_offset(fo) }) {
+            Ok(g) => {
+                if g.map(|v| RDt::of(&v)) != exp {
+                    loc.violation(&format!("C03/{}/wrong-instant-or-refusal", name), json!({"a": format!("{:?}", av), "offset": off, "expected": format!("{:?}", exp), "observed": show(&g)}));
+                }
+                if let Some(gv) = g {
+                    match guard(|| {
+                        let n1 = if sub { av - fo } else { av + fo };
+                        let z = Utc.from_utc_datetime(&av);
+                        let z1 = if sub { z - fo } else { z + fo };
+                        (n1, z1.naive_utc())
+                    }) {
+                        Ok((n1, z1)) => {
+                            if n1 != gv || z1 != gv {
+                                loc.violation(&format!("C03/{}/operator-form-differs", name), json!({"a": format!("{:?}", av), "offset": off, "checked": show(&g), "naive_op": format!("{:?}", n1), "datetime_op": format!("{:?}", z1)}));
+                            }
+                        }
+                        Err(p) => loc.violation(&format!("C03/{}/operator-panics-though-checked-some@{}", name, p.site()), json!({"a": format!("{:?}", av), "offset": off, "panic": p.to_json()})),
+                    }
+                }
+            }
+            Err(p) => loc.violation(&format!("C03/{}/panic@{}", name, p.site()), json!({"a": format!("{:?}", av), "offset": off, "panic": p.to_json()})),
+        }
+    }
+    if a.day <= rc::min_day() + 1 || a.day >= rc::max_day() - 1 {
+        loc.nontrivial(h2(41, h2(a.ns() as u64, off as u64)));
     }
 }
 
@@ -300,7 +365,9 @@ fn case_date_days(loc: &mut Local, x: &Ix, day: i64, n: u64, sub: bool) {
             let o = if sub { dv - Days::new(n) } else { dv + Days::new(n) };
             let ndt = dv.and_hms_opt(12, 34, 56).unwrap();
             let o2 = if sub { ndt.checked_sub_days(Days::new(n)) } else { ndt.checked_add_days(Days::new(n)) };
-            (o, o2)
+            // the operator form on NaiveDateTime as well
+            let o3 = if sub { ndt - Days::new(n) } else { ndt + Days::new(n) };
+            (o, if Some(o3) == o2 { o2 } else { None })
         });
         match r {
             Ok((o, o2)) => {
@@ -532,6 +599,11 @@ pub fn run(ctx: &Ctx) -> Outcome {
                         case_dt_add(&mut loc, &x, a, d, false);
                         case_dt_add(&mut loc, &x, a, d, true);
                     }
+                }
+            }
+            for &off in &[-86_399i64, -3600, -1, 0, 1, 1800, 86_399] {
+                for secs in [0i64, 3599, 43_200, 86_399] {
+                    case_offset_ops(&mut loc, &x, RDt::new(day, secs, 999_999_999), off);
                 }
             }
             // zoned, a few offsets incl. the extremes
